@@ -34,7 +34,7 @@ RUNS = [([], None), (["create"], None), (["fix"], None), (["trim"], None), (["cr
 
 
 def bounds(tier):
-    return {"fixed_histories": {"suffix_pairs": len(SITES) * (len(SITES) - 1), "flows": list(H_FLOWS), "cwd_histories": 18}, "configs": CFGS, "depth_per_config": [_depth(tier, i) for i in range(len(CFGS))], "session_events": len(RUNS), "edit_events": 4}
+    return {"fixed_histories": {"suffix_pairs": len(SITES) * (len(SITES) - 1), "flows": list(H_FLOWS), "cwd_histories": 18, "prefix_collision_histories": 12}, "configs": CFGS, "depth_per_config": [_depth(tier, i) for i in range(len(CFGS))], "session_events": len(RUNS), "edit_events": 4}
 
 
 def _depth(tier, ci):
@@ -197,6 +197,11 @@ def _hist_cases(tier):
             for flow in H_FLOWS:
                 for hl in ((12,) if tier == "quick" else (12, 64, 3)):
                     cases.append({"hist": "suffix", "a": a, "b": b, "flow": flow, "hl": hl})
+    # two referenced payloads whose hashes agree on the configured prefix length: an approved trim must keep both
+    for hl in (1, 2):
+        for order in ("first-then-second", "both"):
+            for flags in (["trim"], ["create", "trim"], ["fix", "trim"]):
+                cases.append({"hist": "collision", "hl": hl, "order": order, "flags": flags})
     for layout in ("tests-subdir", "nested-subdir"):
         for sd in ("snapshots", "../store", ".inline-snapshot"):
             for order in (["root", "sub", "root", "sub"], ["sub", "root", "sub", "root"], ["sub", "sub", "root", "root"]):
@@ -285,6 +290,42 @@ def _run_hist(case):
                 prev_new = {x for x in store if "-new" in x}
                 if not flags and "snapshot()" not in text and r["rc"] != 0:
                     V("plain-session-fails-after-approved-sessions", "%s rc=%s %s" % (label, r["rc"], r["out"][-500:]))
+                if viol:
+                    break
+        finally:
+            plugin.cleanup()
+    elif case["hist"] == "collision":
+        a, b = _collide(case["hl"])
+        pp = "[tool.inline-snapshot]\nhash-length = %d\n" % case["hl"]
+        tmpl = "from inline_snapshot import snapshot, outsource\n\n\ndef test_x():\n    assert outsource(%r) == snapshot()\n"
+        d = plugin.mk_project({"pyproject.toml": pp, "test_first.py": tmpl % a})
+        sp = ".inline-snapshot/external/"
+        try:
+            steps = [(["create"], None)]
+            if case["order"] == "first-then-second":
+                steps += [(["create"], "add"), (case["flags"], None)]
+            else:
+                steps = [(["create"], "add-before"), (case["flags"], None)]
+            persisted_before = set()
+            for step, (flags, edit) in enumerate(steps):
+                if edit:
+                    plugin.write_files(d, {"test_second.py": tmpl % b})
+                r = plugin.session(d, ["--inline-snapshot=" + ",".join(flags)])
+                n += 1
+                label = "step %d (%s)" % (step, flags)
+                if plugin.internal_error(r["out"]) or r["rc"] not in (0, 1):
+                    V("internal-error", "%s rc=%s %s" % (label, r["rc"], r["out"][-600:]))
+                    break
+                after = plugin.listing(d)
+                store = {k[len(sp):]: v for k, v in after.items() if k.startswith(sp) and not k.endswith(".gitignore")}
+                # (whether colliding data gets persisted at all is the documented price of a short hash-length; the clause
+                #  checked here: a persisted file that a participating test file references is not removed by the trim)
+                refs = [m for fn in ("test_first.py", "test_second.py") if fn in after for m in re.findall(r'external\("([0-9a-f]*)\*?\.txt"\)', after[fn].decode())]
+                if step == len(steps) - 1:
+                    for name in persisted_before:
+                        if name not in store and any(name.startswith(r_) for r_ in refs):
+                            V("referenced-file-trimmed", "%s: %s was persisted and is matched by a reference (%s) but is gone; storage %s" % (label, name[:8] + name[64:], refs, sorted(x[:8] + x[64:] for x in store)))
+                persisted_before = {x for x in store if "-new" not in x}
                 if viol:
                     break
         finally:
